@@ -48,6 +48,12 @@ def floors(tier):
     return f
 
 
+# the loss is compared with the 50-digit reference relative to the cancellation scale of the closed form (sum of |terms|; for NegBinom
+# with k = 1e10 that is ~5e11 per observation, so float64 cannot do better than ~1e-4 there): 1e-12 leaves three to four digits over
+# what a float64 evaluation of the closed form delivers and still sees a dropped term of order 1 next to k = 1e9
+LOSS_RTOL = 1e-12
+
+
 def logu(rng, lo, hi):
     return math.exp(rng.uniform(math.log(lo), math.log(hi)))
 
@@ -76,15 +82,16 @@ def gen_case(rng):
     spread = None
     if kind in SPREAD_ARG:
         spread_form = rng.choice(["default", "float", "int", "array", "array", "int-array", "column-array"])
-        wide = rng.random() < 0.15      # numerical edge: spreads up to 1e8 (near-Poisson NegBinom, near-deterministic Gamma, flat Normal)
+        wide = rng.random() < 0.15      # numerical edge: spreads up to 1e8 (near-Poisson NegBinom up to 1e12, near-deterministic Gamma, flat Normal)
+        top = 1e12 if kind == "NegBinom" else 1e8
         if spread_form == "float" and wide:
-            spread = logu(rng, 1e3, 1e8)
+            spread = logu(rng, 1e3, top)
         elif spread_form == "float":
             spread = logu(rng, 1e-2, 1e2)
         elif spread_form == "int":
             spread = rng.randint(2, 9)
         elif spread_form in ("array", "column-array"):
-            spread = [logu(rng, 1e3, 1e8) if wide else logu(rng, 1e-2, 1e2) for _ in range(m)]
+            spread = [logu(rng, 1e3, top) if wide else logu(rng, 1e-2, 1e2) for _ in range(m)]
         elif spread_form == "int-array":       # whole-number spreads held in an integer-dtype ndarray
             spread = [rng.randint(1, 9) for _ in range(m)]
     weights = None
@@ -186,7 +193,7 @@ def run_case(rng, idx, tier, lane, ctx):
                 counters["loss_checks"] += 1
                 if np.ndim(got) != 0:
                     bad("loss is not a scalar", shape=list(np.shape(got)))
-                elif not abs(float(got) - float(ref)) <= 1e-9 * float(scale) + 1e-300:
+                elif not abs(float(got) - float(ref)) <= LOSS_RTOL * float(scale) + 1e-300:
                     bad("loss differs from the reference negative log-likelihood", round=tag, got=float(got), expected=float(ref),
                         scale=float(scale), y=yv, yhat=mv, spread=sp_vals)
             except Exception as e:
@@ -198,7 +205,7 @@ def run_case(rng, idx, tier, lane, ctx):
                 ref = R.mp.fsum(R.nll_terms(kind, yv[i], mv[i], sp_vals[i])[0] for i in range(m))
                 scale = R.mp.fsum(R.nll_terms(kind, yv[i], mv[i], sp_vals[i])[1] for i in range(m))
                 counters["loss_checks"] += 1
-                if not abs(float(got) - float(ref)) <= 1e-9 * float(scale) + 1e-300:
+                if not abs(float(got) - float(ref)) <= LOSS_RTOL * float(scale) + 1e-300:
                     bad("unweighted loss differs from the reference negative log-likelihood", got=float(got),
                         expected=float(ref), y=yv, yhat=mv, spread=sp_vals)
             except Exception as e:
